@@ -7,6 +7,10 @@
 #include <stdlib.h>
 #include <string.h>
 #include <stdio.h>
+#include <errno.h>
+#include <time.h>
+
+int sched_horizon_s = 20;
 
 static sem_t sem[SCHED_MAXT], sem_main;
 static int nthreads, finished[SCHED_MAXT];
@@ -120,7 +124,20 @@ int sched_run(int n, sched_body_t *b, void **a, const int *pfx, int pfx_len, sch
 	int first = choose(-1, 0);
 	running = first;
 	sem_post(&sem[first]);
-	sem_wait(&sem_main);
+	/* horizon: one execution takes milliseconds; a thread that blocks outside the scheduler (a lock of the code under test that
+	 * nobody will release, a wait on freed memory) would otherwise stall the exploration for good */
+	{
+		struct timespec ts;
+		clock_gettime(CLOCK_REALTIME, &ts);
+		ts.tv_sec += sched_horizon_s;
+		int r;
+		while ((r = sem_timedwait(&sem_main, &ts)) != 0 && errno == EINTR)
+			;
+		if (r != 0) {
+			*np = npoints;
+			return -3;   /* the threads are still there: the caller must not go on in this process */
+		}
+	}
 	for (int i = 0; i < n; i++)
 		pthread_join(th[i], NULL);
 	active = 0;
